@@ -1,2 +1,15 @@
 import Sio.Props.C08
-#print axioms Sio.C08.placeholder_stub
+#print axioms Sio.C08.connect_sends
+#print axioms Sio.C08.related
+#print axioms Sio.C08.wait_all
+#print axioms Sio.C08.refusal_reported
+#print axioms Sio.C08.mirror_partial
+#print axioms Sio.C08.bad_namespace
+#print axioms Sio.C08.bad_namespace_iff
+#print axioms Sio.C08.connect_handler_once
+#print axioms Sio.C08.notifications
+#print axioms Sio.C08.disconnect_once
+#print axioms Sio.C08.reset
+#print axioms Sio.C08.F8_witness
+#print axioms Sio.C08.F8b_witness
+#print axioms Sio.C08.F9_witness
